@@ -54,6 +54,9 @@ fn files_basic() -> Vec<FileSpec> {
         f("enc_single.txt", ContentClass::Text, 0, 450, M_ZLIB, Enc::Key),
         f("enc_multi.bin", ContentClass::Random, 3, 3, M_NONE, Enc::FixKey),
         f("mixed_multi.dat", ContentClass::CompressibleHeadRandomTail, 6, 0, M_BZIP2, Enc::None),
+        // 24 identical sectors: the checksum sector of this file is itself compressible (the only
+        // shape in which it is stored compressed), and its intact image must still verify
+        f("const_multi.dat", ContentClass::Constant, 48, 0, M_ZLIB, Enc::None),
     ]
 }
 
